@@ -1622,6 +1622,7 @@ func ruleAllocFromFileInt(c *eng.Ctx) {
 		DebugFileIntIndex(c)
 	}
 	DebugByteAsRune(c)
+	DebugRepeatSinks(c)
 	if os.Getenv("VDEBUG") == "bidx" {
 		DebugBinaryIndex(c)
 	}
